@@ -35,6 +35,11 @@ impl FsState {
     pub open spec fn same_outside(&self, o: FsState, d: PathV) -> bool {
         forall|p: PathV| #![trigger self.has(p)] #![trigger o.has(p)] #![trigger self.same_at(o, p)] #![trigger self.nodes.contains_key(p)] #![trigger o.nodes.contains_key(p)] !is_prefix(d, p) ==> self.same_at(o, p)
     }
+    // like same_outside, but missing ancestors of d may have been created as directories (mkdir -p)
+    pub open spec fn same_outside_mk(&self, o: FsState, d: PathV) -> bool {
+        forall|p: PathV| #![trigger self.has(p)] #![trigger o.has(p)] #![trigger self.same_at(o, p)] #![trigger self.nodes.contains_key(p)] #![trigger o.nodes.contains_key(p)] !is_prefix(d, p)
+            ==> self.same_at(o, p) || (is_prefix(p, d) && !o.has(p) && self.is_dir(p))
+    }
     pub open spec fn same_except(&self, o: FsState, t: PathV) -> bool {
         forall|p: PathV| #![trigger self.has(p)] #![trigger o.has(p)] #![trigger self.same_at(o, p)] #![trigger self.nodes.contains_key(p)] #![trigger o.nodes.contains_key(p)] p != t ==> self.same_at(o, p)
     }
@@ -76,6 +81,13 @@ impl DirEntry {
     #[verifier::external_body]
     pub fn path(&self) -> (r: PathBuf) ensures r@ == self.p@ { unimplemented!() }
 }
+// duplicate-freeness of a directory listing (opaque: instantiate with lemma_paths_distinct)
+#[verifier::opaque]
+pub open spec fn paths_distinct(s: Seq<PathV>) -> bool { forall|i: int, j: int| 0 <= i < j < s.len() ==> s[i] != s[j] }
+pub proof fn lemma_paths_distinct(s: Seq<PathV>, i: int, j: int)
+    requires paths_distinct(s), 0 <= i < s.len(), 0 <= j < s.len(), i != j
+    ensures s[i] != s[j]
+{ reveal(paths_distinct); }
 // readdir(3) snapshot: entries[i] is Ok(entry p/<name>) or an I/O error met while listing
 pub struct ReadDir { pub dir: Ghost<PathV>, pub paths: Ghost<Seq<PathV>> }
 pub uninterp spec fn read_dir_items(rd: ReadDir) -> Seq<Result<DirEntry, IoError>>;
@@ -152,7 +164,7 @@ impl World {
                 && rd.dir@ == p.path_view()
                 // entry paths are p/<name>, one per child of the followed directory
                 && (forall|i: int| 0 <= i < rd.paths@.len() ==> child_of(p.path_view(), #[trigger] rd.paths@[i]))
-                && (forall|i: int, j: int| 0 <= i < j < rd.paths@.len() ==> rd.paths@[i] != rd.paths@[j])
+                && paths_distinct(rd.paths@)
                 && (forall|c: PathV| child_of(old(self).fs().follow(p.path_view())->0, c) && #[trigger] old(self).fs().has(c) ==>
                       exists|i: int| 0 <= i < rd.paths@.len() && #[trigger] rd.paths@[i] == p.path_view().push(c.last()))
                 && (forall|i: int| 0 <= i < rd.paths@.len() ==>
